@@ -61,8 +61,12 @@ def emit_guards(w, src, must):
     w("Definition stream_body_len_saved : bool := %s." % ("true" if saved else "false"))
     dl = src("crates/sip-ua/src/dialog/layer.rs")
     gt = dl[dl.index("Ordering::Greater =>"):]
-    gt = gt[:gt.index("backlog.insert(")]
-    guard = bool(re.search(r"if dialog_entry\.backlog\.contains_key\(&request_cseq\)\s*\{\s*return;\s*\}", gt))
+    gt = gt[:gt.index("\n                }\n") if "\n                }\n" in gt else len(gt)]
+    # two spellings of the guard: `contains_key` + return in front of the insert, or the Entry API inserting only into a vacant slot
+    pre_insert = gt[:gt.index("backlog.insert(")] if "backlog.insert(" in gt else ""
+    guard_a = bool(re.search(r"if \w+\.backlog\.contains_key\(&\w+\)\s*\{\s*return;\s*\}", pre_insert))
+    guard_b = "backlog.insert(" not in gt and bool(re.search(r"\.backlog\.entry\(\w+\)", gt)) and "Vacant" in gt and not re.search(r"Occupied\([^)]*\)\s*=>\s*\{[^}]*insert", gt)
+    guard = guard_a or guard_b
     w("(* DialogLayer::receive does not overwrite a parked request with another one carrying the same CSeq (sip-ua/src/dialog/layer.rs) *)")
     w("Definition dlg_backlog_no_overwrite : bool := %s." % ("true" if guard else "false"))
     w("")
